@@ -3,16 +3,34 @@
 # SPDX-License-Identifier: MIT
 
 from __future__ import annotations
-import functools
 import logging
 from dataclasses import dataclass
 from pathlib import Path
-from typing import cast
+from typing import Callable, cast
 
 from ._dsdl import DefinitionVisitor, DSDLFile, ReadableDSDLFile, PrintOutputHandler, SortedFileList
 from ._dsdl import file_sort as dsdl_file_sort
 from ._error import Error, InternalError
 from ._serializable._composite import CompositeType
+
+
+class _PrintHandlerForFile:
+    """
+    Adapts the user's (path, line, text) print output handler to the (line, text) form that
+    :meth:`ReadableDSDLFile.read` expects. A definition re-targets the adapter when it is read (see
+    ``DSDLDefinition.read``), so that the output of a ``@print`` directive located in a dependency is reported
+    with the path of the dependency rather than with the path of the definition that refers to it.
+    """
+
+    def __init__(self, sink: Callable[[Path, int, str], None], file: Path) -> None:
+        self._sink = sink
+        self._file = file
+
+    def for_file(self, file: Path) -> "_PrintHandlerForFile":
+        return _PrintHandlerForFile(self._sink, file)
+
+    def __call__(self, line: int, message: str) -> None:
+        self._sink(self._file, line, message)
 
 
 # pylint: disable=too-many-arguments
@@ -66,7 +84,7 @@ def _read_definitions(
             new_composite_type = target_definition.read(
                 lookup_definitions,
                 [_Callback()],
-                functools.partial(print_handler, target_definition.file_path),
+                _PrintHandlerForFile(print_handler, target_definition.file_path),
                 allow_unregulated_fixed_port_id,
             )
         except Error as ex:  # pragma: no cover
